@@ -17,7 +17,7 @@ from harness import core, learners as L, xlearner as X
 
 MODULES = ["AdaptiveProofs.Props.C10", "AdaptiveProofs.Props.C10More"]
 KINDS = ["l1d", "l1d_curv", "l1d_vec", "l1d_tri", "l1d_uni", "lnd2", "lnd3", "l2d", "avg", "avg1d", "seq", "integ",
-         "bal:l1d", "bal:seq", "bal:avg", "bal:cycle:l1d", "bal:loss:l1d", "ds:l1d", "ds:seq", "ds:avg", "ds:lnd2"]
+         "bal:l1d", "bal:seq", "bal:avg", "bal:cycle:l1d", "bal:loss:l1d", "bal:ds:l1d", "ds:l1d", "ds:seq", "ds:avg", "ds:lnd2"]
 
 
 def values_equal(kn, have, want):
